@@ -46,6 +46,9 @@ type World struct {
 	// constLenNames: callee name → constant length of its slice result (see funcConstLen)
 	constLenNames map[string]int64
 	globals       map[*ssa.Global]*globalBytes // see constfold.go
+	gWriters      map[*ssa.Global][]string      // see stateless.go
+	clobber       *clobberSummary               // see noclobber.go
+	allSet        map[*ssa.Function]bool
 }
 
 func relPkg(path string) string {
@@ -232,6 +235,14 @@ func InstrPos(in ssa.Instruction) token.Pos {
 		return in.Parent().Pos()
 	}
 	return token.NoPos
+}
+
+// allFunctionsSet: every function of the program (module and dependencies).
+func (w *World) allFunctionsSet() map[*ssa.Function]bool {
+	if w.allSet == nil {
+		w.allSet = ssautil.AllFunctions(w.Prog)
+	}
+	return w.allSet
 }
 
 // CallGraph builds (once) the VTA call graph refined from CHA.
